@@ -254,7 +254,7 @@ func rewriteFile(name string, src []byte) ([]byte, []string, error) {
 				hooked := i > 0 && isCallTo(list[i-1], "simSend")
 				if !hooked {
 					ch := exprString(fset, send.Chan)
-					out = append(out, parseStmt(fmt.Sprintf("simSend(%q, func() bool { return len(%s) == cap(%s) })", site, ch, ch)))
+					out = append(out, parseStmt(fmt.Sprintf("simSend(%q, func() bool { return cap(%s) > 0 && len(%s) == cap(%s) })", site, ch, ch, ch)))
 					n = append(n, site)
 				}
 			}
@@ -266,7 +266,7 @@ func rewriteFile(name string, src []byte) ([]byte, []string, error) {
 			}
 			if ch := recvExpr(s); ch != nil {
 				c := exprString(fset, ch)
-				out = append(out, parseStmt(fmt.Sprintf("simRecvAuto(%q, func() bool { return len(%s) == 0 })", site, c)))
+				out = append(out, parseStmt(fmt.Sprintf("simRecvAuto(%q, func() bool { return cap(%s) > 0 && len(%s) == 0 })", site, c, c)))
 				n = append(n, site)
 			}
 			out = append(out, s)
